@@ -2,6 +2,7 @@ From AQ Require Import lib.Base model.Codec model.Varint model.RangeSet model.Ac
 From AQ Require Import model.TlsCodec model.TParams proofs.TParamsProofs proofs.TParamsRoundtrip proofs.TParamsReencode.
 From AQ Require Import proofs.CodecProofs proofs.VarintProofs proofs.AckFrameProofs proofs.HeaderProofs proofs.TlsCodecProofs.
 From AQ Require Import proofs.TlsListProofs proofs.TlsRoundtrip proofs.TlsTotal proofs.TlsDumpInverse.
+From AQ Require Import gen.C17Bits proofs.CBitsProofs gen.C17Blocks proofs.TlsNested proofs.TlsReencode.
 
 (* ---- variable-length integers (RFC 9000 section 16) ---- *)
 Theorem varint_roundtrip : forall v rest, 0 <= v < 2 ^ 62 ->
@@ -391,3 +392,152 @@ Theorem ext_length_ignored_general : forall parse ch st ty len len' b,
   ext_item parse ch st (be_enc 2 ty ++ be_enc 2 len' ++ b).
 Proof. exact TlsTotal.ext_length_ignored_general. Qed.
 Print Assumptions ext_length_ignored_general.
+
+(* ---- the C text of _buffer.c at bit level (gen/C17Bits.v: Z.shiftl / Z.shiftr / Z.lor / Z.land, conversions to
+        uintN_t as mod 2^N, generated from the source on every run) equals the arithmetic models above ---- *)
+Theorem c_pull_uint_var_is_model : forall bs, bytes_ok bs -> c_pull_uint_var bs = pull_uint_var bs.
+Proof. exact CBitsProofs.c_pull_uint_var_is_model. Qed.
+Print Assumptions c_pull_uint_var_is_model.
+
+Theorem c_push_uint_var_is_model : forall v, c_push_uint_var v = push_uint_var v.
+Proof. exact CBitsProofs.c_push_uint_var_is_model. Qed.
+Print Assumptions c_push_uint_var_is_model.
+
+Theorem c_pull_uintN_is_model : forall bs, bytes_ok bs ->
+  c_pull_uint8 bs = pull_uint8 bs /\ c_pull_uint16 bs = pull_uint16 bs /\
+  c_pull_uint32 bs = pull_uint32 bs /\ c_pull_uint64 bs = pull_uint64 bs.
+Proof. exact CBitsProofs.c_pull_uintN_is_model. Qed.
+Print Assumptions c_pull_uintN_is_model.
+
+Theorem c_push_uintN_is_model : forall v,
+  c_push_uint8 v = push_uint8 v /\ c_push_uint16 v = push_uint16 v /\
+  c_push_uint32 v = push_uint32 v /\ c_push_uint64 v = push_uint64 v.
+Proof. exact CBitsProofs.c_push_uintN_is_model. Qed.
+Print Assumptions c_push_uintN_is_model.
+
+Theorem c_signed_ops_defined : forall bs v, bytes_ok bs ->
+  c_signed_ok_pull_uint8 bs /\ c_signed_ok_pull_uint16 bs /\ c_signed_ok_pull_uint32 bs /\
+  c_signed_ok_pull_uint64 bs /\ c_signed_ok_pull_uint_var bs /\
+  c_signed_ok_push_uint8 v /\ c_signed_ok_push_uint16 v /\ c_signed_ok_push_uint32 v /\
+  c_signed_ok_push_uint64 v /\ c_signed_ok_push_uint_var v.
+Proof. exact CBitsProofs.c_signed_ops_defined. Qed.
+Print Assumptions c_signed_ops_defined.
+
+Theorem c_varint_roundtrip : forall v rest, 0 <= v < 2 ^ 62 -> bytes_ok rest ->
+  exists bs, c_push_uint_var v = Ok bs /\ c_pull_uint_var (bs ++ rest) = Ok (v, rest).
+Proof. exact CBitsProofs.c_varint_roundtrip. Qed.
+Print Assumptions c_varint_roundtrip.
+
+Theorem c_fixed_roundtrip : forall v rest, bytes_ok rest ->
+  (0 <= v < 2 ^ 8 -> exists bs, c_push_uint8 v = Ok bs /\ c_pull_uint8 (bs ++ rest) = Ok (v, rest)) /\
+  (0 <= v < 2 ^ 16 -> exists bs, c_push_uint16 v = Ok bs /\ c_pull_uint16 (bs ++ rest) = Ok (v, rest)) /\
+  (0 <= v < 2 ^ 32 -> exists bs, c_push_uint32 v = Ok bs /\ c_pull_uint32 (bs ++ rest) = Ok (v, rest)) /\
+  (0 <= v < 2 ^ 64 -> exists bs, c_push_uint64 v = Ok bs /\ c_pull_uint64 (bs ++ rest) = Ok (v, rest)).
+Proof. exact CBitsProofs.c_fixed_roundtrip. Qed.
+Print Assumptions c_fixed_roundtrip.
+
+(* ---- nesting: "never reading past the declared length of an enclosing field" ----
+   pull_block / pull_list of the model are the functions built from the comparisons read from tls.py on this run
+   (gen/C17Blocks.v); [local]: a successful decode depends only on the bytes it consumed. *)
+Theorem pull_block_matches_source : forall A cap (body : Z -> list Z -> Res (A * list Z)) bs,
+  pull_block cap body bs = pull_block_src cap body bs.
+Proof. exact @TlsNested.pull_block_matches_source. Qed.
+Print Assumptions pull_block_matches_source.
+
+Theorem list_continue_matches_source : forall tell end_, src_list_continue tell end_ = negb (end_ - tell <=? 0).
+Proof. exact TlsNested.list_continue_matches_source. Qed.
+Print Assumptions list_continue_matches_source.
+
+Theorem tls_bodies_local :
+  (forall w a, local (item_uint w a)) /\ (forall a, local (item_key_share a)) /\ (forall a, local (item_alpn a)) /\
+  (forall a, local (item_psk_identity a)) /\ (forall cap a, local (item_opaque cap a)) /\
+  (forall a, local (item_certificate_entry a)) /\ local pull_server_name /\ local hello_prefix /\
+  (forall cap, local (pull_opaque cap)) /\
+  parse_local parse_client_hello_ext /\ parse_local parse_server_hello_ext /\ parse_local parse_nst_ext /\
+  parse_local parse_ee_ext /\ parse_local parse_cr_ext /\
+  local pull_client_hello /\ local pull_server_hello /\ local pull_new_session_ticket /\
+  local pull_encrypted_extensions /\ local pull_certificate /\ local pull_certificate_request /\
+  local pull_certificate_verify /\ local pull_finished.
+Proof. exact TlsNested.tls_bodies_local. Qed.
+Print Assumptions tls_bodies_local.
+
+Theorem pull_block_nested : forall A cap (body : Z -> list Z -> Res (A * list Z)) bs v rest,
+  (forall len, local (body len)) -> pull_block cap body bs = Ok (v, rest) ->
+  exists hdr window,
+    bs = hdr ++ window ++ rest /\ length hdr = cap /\ Zlen window = be_dec 0 hdr /\
+    body (Zlen window) window = Ok (v, []) /\
+    forall rest', pull_block cap body (hdr ++ window ++ rest') = Ok (v, rest').
+Proof. exact @TlsNested.pull_block_nested. Qed.
+Print Assumptions pull_block_nested.
+
+Theorem pull_block_overrun_rejected : forall A cap (body : Z -> list Z -> Res (A * list Z)) bs len b1 v b2,
+  pull_be cap bs = Ok (len, b1) -> body len b1 = Ok (v, b2) -> Zlen b1 - Zlen b2 <> len ->
+  pull_block cap body bs = Err E_ALERT_DECODE.
+Proof. exact @TlsNested.pull_block_overrun_rejected. Qed.
+Print Assumptions pull_block_overrun_rejected.
+
+Theorem tls_messages_nested :
+  msg_nested pull_client_hello /\ msg_nested pull_server_hello /\ msg_nested pull_new_session_ticket /\
+  msg_nested pull_encrypted_extensions /\ msg_nested pull_certificate /\ msg_nested pull_certificate_request /\
+  msg_nested pull_certificate_verify /\ msg_nested pull_finished.
+Proof. exact TlsNested.tls_messages_nested. Qed.
+Print Assumptions tls_messages_nested.
+
+Theorem other_ext_body_exact : forall parse ch st ty len b b3 st',
+  parse ty len b = None ->
+  ext_item parse ch st (be_enc 2 ty ++ be_enc 2 len ++ b) = Ok (st', b3) ->
+  0 <= ty < 65536 -> 0 <= len < 65536 -> Zlen b - Zlen b3 = len.
+Proof. exact TlsNested.other_ext_body_exact. Qed.
+Print Assumptions other_ext_body_exact.
+
+Theorem known_ext_body_not_nested_refuted :
+  consumed_by (parse_server_hello_ext 43 0 [3; 4]) [3; 4] = 2 /\
+  consumed_by (parse_client_hello_ext 43 0 [2; 3; 4]) [2; 3; 4] = 3 /\
+  consumed_by (parse_ee_ext 16 0 [0; 3; 2; 104; 51]) [0; 3; 2; 104; 51] = 5 /\
+  consumed_by (parse_nst_ext 42 0 [0; 0; 16; 0]) [0; 0; 16; 0] = 4 /\
+  consumed_by (parse_cr_ext 13 0 [0; 2; 8; 4]) [0; 2; 8; 4] = 4 /\
+  (exists d, pull_server_hello sh_lying_extension = Ok (d, [])) /\
+  (exists d, pull_encrypted_extensions [8; 0; 0; 11; 0; 9; 0; 16; 0; 0; 0; 3; 2; 104; 51] = Ok (d, [])) /\
+  (exists d, pull_new_session_ticket [4; 0; 0; 22; 0; 0; 0; 1; 0; 0; 0; 2; 0; 0; 1; 7; 0; 8; 0; 42; 0; 0; 0; 0; 16; 0] = Ok (d, [])) /\
+  (exists d, pull_certificate_request [13; 0; 0; 11; 0; 0; 8; 0; 13; 0; 0; 0; 2; 8; 4] = Ok (d, [])).
+Proof. exact TlsNested.known_ext_body_not_nested_refuted. Qed.
+Print Assumptions known_ext_body_not_nested_refuted.
+
+(* ---- TLS messages: decode, then re-encode ----
+   canonical messages: the consumed bytes are exactly the encoding of the decoded record (push(pull(bs)) = bs) *)
+Theorem certificate_reencode : forall bs d rest, bytes_ok bs -> pull_certificate bs = Ok (d, rest) ->
+  exists m, d = dump_certificate m /\
+            enc_seq (tree_certificate m) = Ok (flat_seq (tree_certificate m)) /\
+            bs = flat_seq (tree_certificate m) ++ rest.
+Proof. exact TlsReencode.certificate_reencode. Qed.
+Print Assumptions certificate_reencode.
+
+Theorem certificate_verify_reencode : forall bs d rest, bytes_ok bs -> pull_certificate_verify bs = Ok (d, rest) ->
+  exists m, d = dump_certificate_verify m /\ certificate_verify_wf m = true /\
+            enc_seq (tree_certificate_verify m) = Ok (flat_seq (tree_certificate_verify m)) /\
+            bs = flat_seq (tree_certificate_verify m) ++ rest.
+Proof. exact TlsReencode.certificate_verify_reencode. Qed.
+Print Assumptions certificate_verify_reencode.
+
+Theorem finished_reencode : forall bs d rest, bytes_ok bs -> pull_finished bs = Ok (d, rest) ->
+  exists vd, d = out_bytes vd /\ enc_seq (tree_finished vd) = Ok (flat_seq (tree_finished vd)) /\
+             bs = flat_seq (tree_finished vd) ++ rest.
+Proof. exact TlsReencode.finished_reencode. Qed.
+Print Assumptions finished_reencode.
+
+(* a message with an extension list: the decoded record is well-formed, the encoder succeeds, the re-encoding is never
+   longer and decodes to the same record; the bytes may differ (duplicates, F13) *)
+Theorem new_session_ticket_reencode : forall bs d rest, bytes_ok bs -> pull_new_session_ticket bs = Ok (d, rest) ->
+  exists m bytes', d = dump_new_session_ticket m /\ new_session_ticket_wf m = true /\
+    enc_seq (tree_new_session_ticket m) = Ok bytes' /\ Zlen bytes' + Zlen rest <= Zlen bs /\
+    forall rest', pull_new_session_ticket (bytes' ++ rest') = Ok (d, rest').
+Proof. exact TlsReencode.new_session_ticket_reencode. Qed.
+Print Assumptions new_session_ticket_reencode.
+
+Theorem nst_reencode_not_canonical_refuted :
+  (let bs := [4; 0; 0; 30; 0; 0; 0; 1; 0; 0; 0; 2; 0; 0; 1; 7; 0; 16; 0; 42; 0; 4; 0; 0; 16; 0; 0; 42; 0; 4; 0; 0; 32; 0] in
+   exists b, reenc_nst bs = Some b /\ b <> bs /\ Zlen b < Zlen bs) /\
+  (let bs := [4; 0; 0; 22; 0; 0; 0; 1; 0; 0; 0; 2; 0; 0; 1; 7; 0; 8; 0; 42; 0; 0; 0; 0; 16; 0] in
+   exists b, reenc_nst bs = Some b /\ b <> bs /\ Zlen b = Zlen bs).
+Proof. exact TlsReencode.nst_reencode_not_canonical_refuted. Qed.
+Print Assumptions nst_reencode_not_canonical_refuted.
